@@ -1,11 +1,12 @@
 // C13-O2 / C12-O2: the char-level token functions of the LP-format reader (spxlpbase_real.hpp, and the rational twins
 // of spxlpbase_rational.hpp) on ARBITRARY bytes.
-//  (i)  arbitrary NUL-terminated text of length <= LEN held in an EXACTLY sized heap object (malloc(len+1)), scan position
-//       anywhere inside it: every access of the real code stays inside the object (CBMC's built-in pointer/bounds checks on
-//       the real code), `pos` only advances and stays inside, and the consumed text / the text handed to atof,
-//       ratFromString, NameSet::number/add is what an independent index-based reference scanner (below) says.
+//  (i)  arbitrary NUL-terminated text of length <= LEN whose terminator is the LAST byte of its heap object (see draw_text),
+//       scan position anywhere inside it: every access of the real code stays inside the object (CBMC's built-in
+//       pointer/bounds checks on the real code), `pos` only advances and stays inside, and the consumed text / the text handed
+//       to atof, ratFromString, NameSet::number/add is what an independent index-based reference scanner (below) says.
+//       LPFhasKeyword: see the two groups of entries (keyword literal / keyword inside a larger object) further down.
 //  (ii) length sweep around the 8192-byte scratch buffers: tokens of CONCRETE length L in {8191, 8192, 8193}: the bounds
-//       check on the real `char tmp/name[SOPLEX_LPF_MAX_LINE_LEN]` stack arrays decides.
+//       check on the real `char tmp/name[SOPLEX_LPF_MAX_LINE_LEN]` stack arrays decides (thorough tier: ~15 min each).
 // Models (solver build only; the native build runs the real atof / NameSet / ratFromString on real objects):
 //   atof, ratFromString           -> record the text they are given, return a scripted value
 //   NameSet::number/num/add       -> record the name, scripted answers (known / unknown name, current size)
